@@ -30,8 +30,12 @@ from vxlib import Undecided, Unit, Repo  # noqa: E402
 
 BUILD = os.path.join(VERIF, "build")
 EXTDEPS = os.path.join(BUILD, "extdeps", "debug", "deps")
-EVID = os.path.join(VERIF, "evidence")
-REPLAY = os.path.join(VERIF, "replay")
+OUT = os.environ.get("VERIF_OUT", VERIF)   # self-tests on scratch trees redirect evidence/replay
+EVID = os.path.join(OUT, "evidence")
+REPLAY = os.path.join(OUT, "replay")
+if "VERIF_OUT" in os.environ:
+    BUILD = os.path.join(OUT, "build")
+    os.makedirs(BUILD, exist_ok=True)
 KNOWN = os.path.join(VERIF, "known_findings.txt")
 
 # messages by which Verus reports an undischarged proof obligation (everything else
